@@ -830,6 +830,16 @@ pub fn loss_probe_size_native(_x: u8) -> u32 {
     conn.spaces[SpaceId::Handshake].crypto = None;
     conn.spaces[SpaceId::Data].loss_probes = 1;
     conn.spaces[SpaceId::Data].ping_pending = true;
+    if _x == 1 {
+        // enough stream data to fill whatever the probe is allowed to carry
+        conn.peer_params.initial_max_data = VarInt::from_u32(1 << 20);
+        conn.peer_params.initial_max_streams_uni = VarInt::from_u32(4);
+        conn.peer_params.initial_max_stream_data_uni = VarInt::from_u32(1 << 16);
+        let pp = conn.peer_params;
+        conn.streams.set_params(&pp);
+        let s = conn.streams().open(Dir::Uni).expect("stream credit");
+        assert!(conn.send_stream(s).write(&[7u8; 8000]).is_ok());
+    }
     let now = crate::verif::mk_instant(51, 0).unwrap();
     let mut buf = Vec::with_capacity(8 * 1452);
     let Some(t) = conn.poll_transmit(now, 1, &mut buf) else { panic!("a pending loss probe was not sent") };
